@@ -375,8 +375,14 @@ def parent_main(check_id, tier, seed, nshards=None, only_case=None):
 
     # inconclusive conditions: floors not met (only if no violation was seen)
     reason = None
-    if merged["evaluations"] < mod.MIN_EVALS[tier]:
-        reason = "too-few-evaluations:%d<%d" % (merged["evaluations"], mod.MIN_EVALS[tier])
+    # Floors exist to catch a monitor that was silently disconnected (count 0 or tiny), not to punish a loaded
+    # machine: they scale with the fraction of planned cases the soft budget let us run, then are halved.
+    frac = min(1.0, merged["cases_run"] / float(merged["cases_planned"] or 1))
+    scale = max(0.02, frac) * 0.5
+    min_evals = max(2, int(mod.MIN_EVALS[tier] * scale))
+    cov["floor_scale"] = round(scale, 3)
+    if merged["evaluations"] < min_evals:
+        reason = "too-few-evaluations:%d<%d" % (merged["evaluations"], min_evals)
     elif len(merged["sigs"]) < 2:
         reason = "too-few-distinct-cases"
     else:
@@ -384,6 +390,7 @@ def parent_main(check_id, tier, seed, nshards=None, only_case=None):
         if floors and isinstance(next(iter(floors.values())), dict):
             floors = floors.get(tier, {})
         for m, floor in floors.items():
+            floor = max(1, int(floor * scale))
             if merged["monitors"].get(m, 0) < floor:
                 reason = "monitor-not-reached:%s:%d<%d" % (m, merged["monitors"].get(m, 0), floor)
                 break
